@@ -12,6 +12,8 @@ import NgoVerif.DriverSumAgg
 import NgoVerif.DriverDependency
 import NgoVerif.DriverUnused
 import NgoVerif.DriverMinMax
+import NgoVerif.DriverSymmetry
+import NgoVerif.DriverDuplication
 /-!
 # Line-protocol driver: one s-expression request per line on stdin, one s-expression answer per line on stdout.
 
@@ -58,7 +60,7 @@ def runMakeUnique (u : UniqueVars) : List Sexp → List String → Option (List 
   | _, _ => none
 
 /-- handlers contributed by the per-pass driver files; tried in order -/
-def extHandlers : List (Sexp → Option Sexp) := [handleCleanup, handleBinding, handleNormalize, handleSumAgg, handleDependency, handleUnused, handleMinMax]
+def extHandlers : List (Sexp → Option Sexp) := [handleCleanup, handleBinding, handleNormalize, handleSumAgg, handleDependency, handleUnused, handleMinMax, handleSymmetry, handleDuplication]
 
 def tryExt (req : Sexp) : List (Sexp → Option Sexp) → Sexp
   | [] => unsupported "unknown op"
